@@ -30,19 +30,19 @@ var (
 // through fd.SetupActions, i.e. the config path of the real binary) ->
 // devnull output, with the limiters' clock replaced by a virtual one.
 type rig struct {
-	name   string
-	p      *pipeline.Pipeline
-	in     *fake.Plugin
-	clock  atomic.Int64
+	name    string
+	p       *pipeline.Pipeline
+	in      *fake.Plugin
+	clock   atomic.Int64
 	refused atomic.Int64
-	passed []atomic.Bool // by event index (event.Offset)
+	passed  []atomic.Bool // by event index (event.Offset)
 
 	mu        sync.Mutex
 	committed int
 	cond      *sync.Cond
 }
 
-func newRig(cfg *Config, nEvents int, parallel bool) (*rig, error) {
+func newRig(actionsJS []byte, nEvents int, parallel bool) (*rig, error) {
 	r := &rig{name: fmt.Sprintf("c16_%d_%d", time.Now().UnixNano(), pipeSeq.Add(1))}
 	r.cond = sync.NewCond(&r.mu)
 	r.passed = make([]atomic.Bool, nEvents)
@@ -79,7 +79,7 @@ func newRig(cfg *Config, nEvents int, parallel bool) (*rig, error) {
 		PluginRuntimeInfo: &pipeline.PluginRuntimeInfo{Plugin: out},
 	})
 
-	actions, err := simplejson.NewJson(cfg.actionsJSON())
+	actions, err := simplejson.NewJson(actionsJS)
 	if err != nil {
 		return nil, err
 	}
@@ -166,7 +166,7 @@ func (r *rig) stop() {
 // runSeq drives a history through one processor, in order; returns the
 // pass/discard decision per event index.
 func runSeq(c *Case, only func(*Ev) bool) ([]bool, []bool, error) {
-	r, err := newRig(&c.Cfg, c.NEvents, false)
+	r, err := newRig(c.actions(), c.NEvents, false)
 	if err != nil {
 		return nil, nil, err
 	}
@@ -207,7 +207,7 @@ var errRefused = fmt.Errorf("pipeline refused a generated event before the actio
 // events are fed from one goroutine per source, so that several processors
 // (each with its own Plugin instance) hit the shared limiters concurrently.
 func runConc(c *Case) ([]bool, error) {
-	r, err := newRig(&c.Cfg, c.NEvents, true)
+	r, err := newRig(c.actions(), c.NEvents, true)
 	if err != nil {
 		return nil, err
 	}
@@ -248,4 +248,11 @@ func runConc(c *Case) ([]bool, error) {
 		dec[i] = r.passed[i].Load()
 	}
 	return dec, nil
+}
+
+func (c *Case) actions() []byte {
+	if c.Cfg2 != nil {
+		return actionsJSON(&c.Cfg, c.Cfg2)
+	}
+	return actionsJSON(&c.Cfg)
 }
